@@ -18,7 +18,7 @@
 (* satisfies the class predicate of Matrix.tla and the accuracy clause.     *)
 (***************************************************************************)
 EXTENDS Integers, Sequences, TLC, Json, IOUtils
-VARIABLE l
+VARIABLES l, bad       \* next line; lines whose event is not allowed (every event is judged, the calls are independent)
 Rec == ndJsonDeserialize(IOEnv.TRACE)
 
 \* the class predicate of Matrix.tla (ClassOK), restated on the event's fields
@@ -37,14 +37,14 @@ AccuracyOK(e) ==
 \* the generic code behaves identically for the tracking scalar, and never narrows (C19)
 GenericOK(e) == e.tr_result = e.result /\ e.narrow = 0 /\ e.dbg_same   \* print_debug_info does not change the result (C17)
 
-Init == l = 1
+Init == l = 1 /\ bad = <<>>
 Dec == /\ l <= Len(Rec) /\ Rec[l].ev = "Dec"
-       /\ ClassOK(Rec[l]) /\ AccuracyOK(Rec[l]) /\ GenericOK(Rec[l])
+       /\ bad' = IF ClassOK(Rec[l]) /\ AccuracyOK(Rec[l]) /\ GenericOK(Rec[l]) THEN bad ELSE Append(bad, l)
        /\ l' = l + 1
-TSpec == Init /\ [][Dec]_l
-TraceAccepted ==
-   IF TLCGet("stats").diameter - 1 = Len(Rec) THEN TRUE
-   ELSE /\ PrintT(<<"REJECT", TLCGet("stats").diameter, ToJson(Rec[TLCGet("stats").diameter])>>)
-        /\ FALSE
-Track == TRUE
+TSpec == Init /\ [][Dec]_<<l, bad>>
+\* the verdict is taken in the last state: every line consumed and none rejected; rejected lines are printed
+Done == l = Len(Rec) + 1
+Verdict == Done => (IF bad = <<>> THEN TRUE
+                    ELSE PrintT(<<"REJECTED", ToJson([lines |-> SubSeq(bad, 1, IF Len(bad) > 400 THEN 400 ELSE Len(bad)), total |-> Len(bad)])>>) /\ FALSE)
+TraceAccepted == TLCGet("stats").diameter - 1 = Len(Rec)
 =============================================================================
